@@ -258,6 +258,8 @@ func (e *Engine) resolveFrame(c *Contract, vars map[string]SVal, pkg *types.Pack
 			fi.all = true
 		case m == "ghosts":
 			fi.ghosts = true
+		case strings.HasPrefix(m, "* except "):
+			unsupp("`modifies * except T` is only available on abstract / trusted contracts (it is not checked against a body)")
 		case m == "big":
 			fi.keys["BigVal"] = true
 		default:
